@@ -488,7 +488,7 @@ Error format_node(
       const EmbedDataNode* embed_node = node->as<EmbedDataNode>();
       ASMJIT_PROPAGATE(sb.append('.'));
       ASMJIT_PROPAGATE(format_data_type(sb, format_options.flags(), builder->arch(), embed_node->type_id()));
-      ASMJIT_PROPAGATE(sb.append_format(" {Count=%zu Repeat=%zu TotalSize=%zu}", embed_node->item_count(), embed_node->repeat_count(), embed_node->data_size()));
+      ASMJIT_PROPAGATE(sb.append_format(" {Count=%zu Repeat=%zu TotalSize=%zu}", embed_node->item_count(), embed_node->repeat_count(), embed_node->data_size() * embed_node->repeat_count()));
       break;
     }
 
